@@ -203,6 +203,19 @@ theorem stage1_rename_none {ρ : String → String} (hρ : Inj ρ) (cfg : Cfg) (
   rw [stage1_rename_equivariant hρ cfg hns]
   cases search (candidates cfg train dev (consecutiveCombinations labels cfg.maxNMod)) tol <;> simp
 
+/-- **… and so is the search over the placements of the missing-value modality** (stage 2: the stage-1 leaders and the
+    missing-value marker renamed together). -/
+theorem stage2_rename_equivariant {ρ : String → String} (hρ : Inj ρ) (cfg : Cfg) (hns : cfg.sortGroupsByLabel = false)
+    (train : Table) (dev : Option (List (String × Row))) (leaders : List String) (nan : String) (tol : Rat) :
+    search (candidates cfg { rows := renT ρ train.rows, tie := train.tie } (dev.map (renT ρ))
+        (nanCombinations (leaders.map ρ) (ρ nan) cfg.maxNMod)) tol
+      = match search (candidates cfg train dev (nanCombinations leaders nan cfg.maxNMod)) tol with
+        | .crash => .crash
+        | .none => .none
+        | .best ws d => .best (ws.map (renCand ρ)) d := by
+  rw [nanCombinations_map, candidates_ren hρ cfg hns, search_ren]
+  cases search (candidates cfg train dev (nanCombinations leaders nan cfg.maxNMod)) tol <;> rfl
+
 example : Inj (fun s => s ++ "!r") := by intro a b h; simpa using h
 private def tR : Table := { rows := [("a", ⟨10, 1, 0, false⟩), ("b", ⟨10, 5, 0, false⟩), ("c", ⟨10, 9, 0, false⟩)] }
 private def cfgR : Cfg := { kind := .binary, sortBy := .cramerv, minFreqMod := 1/10, maxNMod := 3, dropna := true }
